@@ -55,7 +55,9 @@ POOLS = {
     'unsignedByte': ['0', '1', '2', '255'],
     'nonPositiveInteger': ['0', '-1', '-2', '-16777217'],
     'decimal': ['0', '0.0', '-0.0', '1', '1.0', '1.5', '-1.5', '0.1', '0.3', '0.30000000000000001', '1.00000001',
-                '1.1', '16777217', '9007199254740993', '2.5', '10', '0.000000000000000000001', '2'],
+                '1.1', '16777217', '9007199254740993', '2.5', '10', '0.000000000000000000001', '2',
+                '9007199254740992', '9007199254740992.5', '1.00000000000000000001', '-9007199254740993',
+                '18446744073709551616'],
     'float': ['0', '-0', '1', '1.1', '1.5', '-1.5', '0.1', '16777216', '16777217', '1.0000001', '1.00000001',
               'INF', '-INF', 'NaN', '3.4028235e38', '1e-37', '2', '10', '0.3'],
     'double': ['0', '-0', '1', '1.1', '1.5', '-1.5', '0.1', '0.3', '1.00000001', '1.0000000000000002', '16777217',
@@ -1011,6 +1013,14 @@ def run(h):
         for v in VERSIONS:
             h.case('value', {'v': v, 'l': [ta, la, 'c'], 'r': [tb, lb, 'c']})
             h.case('general', {'v': v, 'L': [[ta, la, 'c']], 'R': [[tb, lb, 'c']]})
+    # 0b. numeric tower: ALL ordered pairs of pool values of the four primitive numeric types (promotion must not
+    #     round one side only: 2^53+1 vs 2^53 as integer/decimal/double, 0.1 as decimal/float/double, ...)
+    core = ('integer', 'decimal', 'float', 'double')
+    for ta in core:
+        for tb in core:
+            for la in POOLS[ta]:
+                for lb in POOLS[tb]:
+                    h.case('value', {'v': nextv(), 'l': [ta, la, 'c'], 'r': [tb, lb, 'c']})
     # 1. value comparison matrix
     reps = max(1, h.n(2))
     for ta in TYPES:
